@@ -26,6 +26,7 @@ import (
 	"math/big"
 	"math/rand"
 	"path/filepath"
+	"runtime"
 	"strings"
 
 	"com.tuntun.rangers/node/src/common"
@@ -168,6 +169,93 @@ func doRescale(n *big.Int, dec int, src string) {
 	}
 }
 
+// concurrent: K goroutines convert at the same time, each with its own token decimal count, the
+// amounts of the list; every goroutine compares with the results the same calls gave sequentially
+// beforehand and reports the first difference, which is then emitted as an ordinary RoundTrip /
+// Rescale event (src "conc") and judged by the monitor.
+func concurrent(amounts []*big.Int, rounds int) (ran int) {
+	decs := []int{18, 6, 0, 8, 18, 17, 9, 18}
+	type want struct{ rt, erc, led string }
+	str := func(n *big.Int, err error) string {
+		if err != nil || n == nil {
+			return "error"
+		}
+		return n.String()
+	}
+	refs := make([][]want, len(decs))
+	for g, d := range decs {
+		refs[g] = make([]want, len(amounts))
+		for i, n := range amounts {
+			refs[g][i] = want{str(utility.StrToBigInt(utility.BigIntToStr(n))), str(utility.FormatDecimalForERC20(n, int64(d)), nil),
+				str(utility.FormatDecimalForRocket(n, int64(d)), nil)}
+		}
+	}
+	type bad struct {
+		op  string
+		n   *big.Int
+		dec int
+		out *big.Int
+		s   string
+		ok  bool
+	}
+	for r := 0; r < rounds; r++ {
+		ch := make(chan *bad, len(decs))
+		cnt := make(chan int, len(decs))
+		start := make(chan struct{})
+		for g, d := range decs {
+			go func(g, d int) {
+				var b *bad
+				c := 0
+				<-start
+				defer func() {
+					if x := recover(); x != nil {
+						b = &bad{op: "panic"}
+					}
+					cnt <- c
+					ch <- b
+				}()
+				for i, n := range amounts {
+					if b != nil {
+						break
+					}
+					c += 3
+					s := utility.BigIntToStr(n)
+					out, err := utility.StrToBigInt(s)
+					if str(out, err) != refs[g][i].rt {
+						b = &bad{op: "RoundTrip", n: n, out: out, s: s, ok: err == nil}
+						break
+					}
+					if o := utility.FormatDecimalForERC20(n, int64(d)); str(o, nil) != refs[g][i].erc {
+						b = &bad{op: "erc20", n: n, dec: d, out: o}
+						break
+					}
+					if o := utility.FormatDecimalForRocket(n, int64(d)); str(o, nil) != refs[g][i].led {
+						b = &bad{op: "ledger", n: n, dec: d, out: o}
+					}
+				}
+			}(g, d)
+		}
+		close(start)
+		for range decs {
+			ran += <-cnt
+			b := <-ch
+			if b == nil || counts["conc-diff"] >= 300 {
+				continue
+			}
+			counts["conc-diff"]++
+			switch b.op {
+			case "panic":
+				emit(map[string]interface{}{"event": "RoundTrip", "src": "conc", "n": numForm(big.NewInt(0)), "s": "", "panic": true, "ok": false, "out": numForm(nil)})
+			case "RoundTrip":
+				emit(map[string]interface{}{"event": "RoundTrip", "src": "conc", "n": numForm(b.n), "s": b.s, "panic": false, "ok": b.ok, "out": numForm(b.out)})
+			default:
+				emit(map[string]interface{}{"event": "Rescale", "src": "conc", "dir": b.op, "n": numForm(b.n), "dec": b.dec, "panic": false, "out": numForm(b.out)})
+			}
+		}
+	}
+	return
+}
+
 func randDigits(rng *rand.Rand, n int) []int {
 	d := make([]int, n)
 	switch rng.Intn(4) {
@@ -221,6 +309,7 @@ func main() {
 	casesPath := flag.String("cases", "", "JSON file: list of TLC-generated cases")
 	nRandom := flag.Int("random", 0, "number of seeded random amounts and literals")
 	salt := flag.Int64("salt", 0, "extra seed salt (shard number)")
+	concRounds := flag.Int("conc", 0, "concurrency family: rounds (8 goroutines with different token decimals over the amounts)")
 	flag.Parse()
 	outAbs, _ := filepath.Abs(*out)
 	var cases []tcase
@@ -254,7 +343,28 @@ func main() {
 		}
 		doParse(rng.Intn(4) == 0, ip, randDigits(rng, fl), fl > 0, "random")
 	}
+	concRan := 0
+	if *concRounds > 0 {
+		// the amounts of this shard's TLC cases plus seeded random ones
+		var amounts []*big.Int
+		for _, c := range cases {
+			if c.Op == "num" || c.Op == "rescale" {
+				amounts = append(amounts, bigOf(c.Neg, c.D))
+			}
+		}
+		for len(amounts) < 150 {
+			amounts = append(amounts, randAmount(rng))
+		}
+		if len(amounts) > 400 {
+			amounts = amounts[:400]
+		}
+		for _, procs := range []int{runtime.NumCPU(), 1} {
+			old := runtime.GOMAXPROCS(procs)
+			concRan += concurrent(amounts, *concRounds)
+			runtime.GOMAXPROCS(old)
+		}
+	}
 	tr.Close()
-	fmt.Printf("c18: events=%d parse=%d format=%d roundtrip=%d rescale=%d ethvalue=%d\n", tr.N,
+	fmt.Printf("c18: conc_conversions=%d events=%d parse=%d format=%d roundtrip=%d rescale=%d ethvalue=%d\n", concRan, tr.N,
 		counts["Parse"], counts["Format"], counts["RoundTrip"], counts["Rescale"], counts["EthValue"])
 }
